@@ -85,12 +85,17 @@ def ev_call(ex, n, st, spec, b):
             return merge_val(boolify(E(n.args[0])), E(n.args[1]), E(n.args[2]))
         if name == "old":
             return ex.ev(n.args[0], ex.cx.entry if not st.env.get("__old_env__") else st.env["__old_env__"], True, b)
+        if name == "off":
+            return E(n.args[0]).off
         if name == "seq_eq":
             return str_eq(as_str(E(n.args[0])), as_str(E(n.args[1])))
         if name == "cg":
             return st.env[f"{n.args[0].value}::{n.args[1].value}"]
         if name == "code":
-            return as_str(E(n.args[0])).arr[zint(E(n.args[1]))]
+            v_ = E(n.args[0])
+            if isinstance(v_, CArr):
+                return v_.arr[v_.off + zint(E(n.args[1]))]
+            return as_str(v_).arr[zint(E(n.args[1]))]
         if name == "is_none":
             v = E(n.args[0])
             return z3.BoolVal(True) if v is None else (v.none if isinstance(v, Opt) else z3.BoolVal(False))
@@ -272,7 +277,7 @@ def _call_method(ex, base, attr, args, kwargs, st, node, spec, after=None):
         h = w.method_handler(base.cls, attr)
         if h is not None and after is None:
             r = h(ex, st, base, args, kwargs, node, spec)
-            return r if isinstance(r, tuple) and len(r) == 2 and r[0] is not _NOT2 else (r, None)
+            return (r.value, r.new_base) if isinstance(r, Mut) else (r, None)
         # dynamic dispatch over the class tag
         tag = base.fields.get("__cls__")
         static = base.cls
@@ -293,7 +298,10 @@ def _call_method(ex, base, attr, args, kwargs, st, node, spec, after=None):
     raise Unsupported(f"method call .{attr} on {base!r} at line {getattr(node, 'lineno', '?')}")
 
 
-_NOT2 = object()
+class Mut:
+    """Result of a method handler that also replaces the receiver."""
+    def __init__(self, value, new_base):
+        self.value, self.new_base = value, new_base
 
 
 def dispatch_split(ex, base, tag, alts, attr, args, kwargs, st, node, spec):
